@@ -474,16 +474,25 @@ fn fam_8(thorough: bool) -> Vec<Case> {
     let last = *ls.last().unwrap();
     let _ = last;
     // ---- LossyCounter: O(width * log) entries -----------------------------------------------
-    for &w in &[10usize, 100] {
+    // stream shapes: 0 = pseudo-random keys; 1 = every window closes on an already tracked element (a heavy hitter at the
+    // last two positions of each window) while everything else is new - the worst case for a pruning pass tied to the
+    // kind of element that closes a window
+    for &(w, stream) in &[(10usize, 0usize), (100, 0), (10, 1), (100, 1), (7, 1)] {
         let base = live();
             let mut noise = 0i64;
         let mut l = LossyCounter::<u64>::with_width(w);
-        let mut c = Case { name: format!("LossyCounter width={}", w), documented: 0.0, points: vec![], flat: vec![] };
+        let mut c = Case { name: format!("LossyCounter width={}{}", w, if stream == 1 { " (windows closing on a tracked element)" } else { "" }), documented: 0.0, points: vec![], flat: vec![] };
             noise += c.name.capacity() as i64;
         let mut n = 0usize;
         for &len in &ls {
             while n < len {
-                l.add(mix(n as u64) % 100_000);
+                if stream == 0 {
+                    l.add(mix(n as u64) % 100_000);
+                } else if n % w + 2 >= w {
+                    l.add(u64::MAX);
+                } else {
+                    l.add(n as u64);
+                }
                 n += 1;
             }
             // documented O((1/eps) log(eps n)) entries of ~48 bytes (key, two counters, table overhead at <= 2x capacity)
